@@ -333,7 +333,13 @@ def model_check(ctx, traces, results, tag, shard=200):
 
 
 def visible(o):
-    return (o.get("a") or [], o.get("c") or [], o.get("b") or [], o.get("r") or [])
+    """accounts, cached storages, account buffer and the roots of those (the StorageRoot fields of the caller's
+    AccountState handles, listed just before the state root, are not block state)"""
+    r = o.get("r") or []
+    nah = (o.get("ah") or [0])[0]
+    if r:
+        r = r[: len(r) - 1 - nah] + r[-1:]
+    return (o.get("a") or [], o.get("c") or [], o.get("b") or [], r)
 
 
 def run(ctx):
@@ -354,7 +360,20 @@ def run(ctx):
     if rc != 0:
         raise RuntimeError("C12 engine build failed:\n" + log[-3000:])
 
+    # aliasing between API values and buffered objects (evidence only: these are the contracts the callers rely on)
+    aout = os.path.join(ctx.workdir, "c12_alias.out")
+    rc_a, log_a = ctx.run_bin(binp, ["-test.run", "TestVerifC12Alias"], env={"VERIF_OUT": aout})
+    if rc_a == 0 and os.path.exists(aout):
+        ctx.cov["aliasing_observed"] = json.load(open(aout))
+        ctx.notes.append("aliasing of API values with buffered objects as observed on the implementation: %s — callers must copy "
+                         "before mutating (state.GetAccountState does, via Clone); the engine never mutates a returned value and "
+                         "always puts fresh objects, except through AccountState handles, which are modelled with pointer identity"
+                         % json.dumps(ctx.cov["aliasing_observed"], sort_keys=True))
+
     pred_fail = []      # (key, what, replay)
+    if ctx.cov.get("aliasing_observed", {}).get("AccountState_newState_is_a_copy_before_PutState") is False:
+        pred_fail.append(("C12:handle-mutation-visible", "AddBalance through a fresh AccountState handle (no PutState) changed the buffered account state",
+                          {"probe": "PutState(a0, bal 7); h := GetAccountState(a0); h.AddBalance(1); GetState(a0).Balance != 7"}))
     corr_broken = None
 
     # ---- corpus (hand-written / minimised edge cases run first)
